@@ -766,7 +766,55 @@ impl<'a> Gen<'a> {
 
     /// A local-parent scope on a span that belongs to no trace, with context probes, a child
     /// span, a local span and local attachments inside it.
+    /// An adapter bound to a span that belongs to no trace, driven while another (real) span is
+    /// the thread's local parent: the adapter's scope shadows the caller's for the call.
+    fn traceless_adapter(&mut self, t: usize) {
+        let l = new_span_label();
+        match self.rng.below(3) {
+            0 => self.push(t, Op::Child { l, parents: vec![], single: false, np: 0, k0: 0 }),
+            1 => {
+                let n1 = new_span_label();
+                self.push(t, Op::Noop { l: n1 });
+                self.push(t, Op::Child { l, parents: vec![n1], single: false, np: 0, k0: 0 });
+            }
+            _ => self.push(t, Op::Noop { l }),
+        }
+        let a = new_adapter();
+        let kind = *self.rng.pick(&self.pf.adapter_kinds);
+        self.push(t, Op::ANew { a, kind, span: Some(l), poll_name: None, owned: vec![] });
+        let outer: Vec<u32> = self.m().alive_spans().into_iter().filter(|s| !self.reserved.contains(s)).collect();
+        let guarded = !outer.is_empty() && self.m().threads[t].frames.len() + 3 < self.pf.max_depth;
+        if guarded {
+            let g = *self.rng.pick(&outer);
+            self.push(t, Op::Guard { span: g });
+        }
+        let method = match kind {
+            AKind::Future => AMethod::Poll,
+            AKind::Stream | AKind::Duplex => AMethod::PollNext,
+            AKind::Sink => AMethod::PollFlush,
+        };
+        let steps = vec![
+            Op::CurLocal,
+            Op::LEnter { l: new_local_label(), np: 0, k0: 0 },
+            Op::LAddEvent { e: new_event(), np: 0, k0: 0 },
+            Op::Pop,
+            Op::ChildLocal { l: new_span_label(), np: 0, k0: 0 },
+            Op::CurLocal,
+        ];
+        // the nested steps are applied by `push` through the model like any other call
+        let call = Op::ACall { a, method, steps, outcome: AOutcome::Pending };
+        self.push(t, call);
+        self.push(t, Op::CurLocal);
+        if guarded {
+            self.push(t, Op::Pop);
+        }
+        self.push(t, Op::ADrop { a });
+    }
+
     fn traceless_scope(&mut self, t: usize) {
+        if self.pf.w.anew > 0 && self.depth_call == 0 && self.rng.chance(1, 3) {
+            return self.traceless_adapter(t);
+        }
         let l = new_span_label();
         let kind = self.rng.below(4);
         match kind {
@@ -797,8 +845,43 @@ impl<'a> Gen<'a> {
         }
     }
 
+    /// A local collector started inside the scope of an unsampled span (or of a span without a
+    /// trace): what it captures is detached from that scope and must arrive wherever it is pushed.
+    fn collector_in_dead_scope(&mut self, t: usize) {
+        let (u, s) = (new_span_label(), new_span_label());
+        let st = self.fresh_tid();
+        let sp = self.span_id_value();
+        if self.rng.chance(2, 3) {
+            let ut = self.fresh_tid();
+            let up = self.span_id_value();
+            self.push(t, Op::Root { l: u, trace_id: ut, parent: up, sampled: false, np: 0, k0: 0 });
+        } else {
+            self.push(t, Op::Child { l: u, parents: vec![], single: false, np: 0, k0: 0 });
+        }
+        self.push(t, Op::Root { l: s, trace_id: st, parent: sp, sampled: true, np: 0, k0: 0 });
+        self.push(t, Op::Guard { span: u });
+        let set = new_set();
+        self.push(t, Op::LcStart { set });
+        self.push(t, Op::LEnter { l: new_local_label(), np: 1, k0: new_keys(1) });
+        self.push(t, Op::LAddEvent { e: new_event(), np: 0, k0: 0 });
+        self.push(t, Op::LEnter { l: new_local_label(), np: 0, k0: 0 });
+        self.push(t, Op::Pop);
+        self.push(t, Op::Pop);
+        self.push(t, Op::Pop);
+        self.push(t, Op::Pop);
+        self.push(t, Op::PushSet { set, parents: vec![s] });
+        self.set_parents.entry(set).or_default().insert(s);
+        self.set_pushed.entry(set).or_default().insert(st);
+        let (rt, rs) = (self.rng.u128(), self.span_id_value());
+        self.push(t, Op::ToRecords { set, trace_id: rt, span_id: rs });
+        self.push(t, Op::Finish { span: u });
+    }
+
     /// A scope on a span with one parent in an unsampled and one in a sampled trace.
     fn mixed_scope(&mut self, t: usize) {
+        if self.rng.chance(1, 3) {
+            return self.collector_in_dead_scope(t);
+        }
         let (u, s) = (new_span_label(), new_span_label());
         let ut = self.fresh_tid();
         let st = self.fresh_tid();
@@ -913,7 +996,12 @@ impl<'a> Gen<'a> {
             if self.rng.chance(1, 5) {
                 self.push(t, Op::Cancel { span: l });
             }
-            self.push(t, Op::Finish { span: l });
+            // some of the roots are finished by a contained panic that unwinds through their owner
+            if self.rng.chance(1, 3) {
+                self.push(t, Op::Unwind { steps: vec![], drops: vec![l] });
+            } else {
+                self.push(t, Op::Finish { span: l });
+            }
             self.reserved.remove(&l);
         }
         let n2 = self.rng.range(3, 18);
